@@ -72,8 +72,8 @@ class C24(Prop):
         "llama_index_instrumentation is the functional no-op shim",
         "the SQLite file lives in a per-case temp directory (on /dev/shm when writable, otherwise the default temp dir), removed after the case",
     ]
-    budgets = {"quick": 1400, "thorough": 5000}
-    wall = {"quick": 45.0, "thorough": 420.0}
+    budgets = {"quick": 1400, "thorough": 1500}
+    wall = {"quick": 45.0, "thorough": 300.0}
 
     def setup(self):
         boot.seed_llama_agents()
